@@ -51,7 +51,17 @@ type pathWalker struct {
 	// place (depth-bounded); onInline lets the rule transfer its side tables
 	// from the arguments to the callee's parameters, onReturn from the callee's
 	// results back to the call (results[i] are the returned values).
-	inline    func(callee *ssa.Function) bool
+	inline func(callee *ssa.Function) bool
+	// Without an explicit inline policy, a static callee of the root function's
+	// own package is interpreted in place on a trial copy of the bindings, so
+	// that a rule reads the same whether a piece of logic sits in the function
+	// or in a helper extracted from it; when the helper's body leaves the
+	// finite domain the trial is discarded and the call stays opaque (handed to
+	// onCall). opaque names the helpers a rule models itself; noAuto turns the
+	// default off.
+	opaque  map[string]bool
+	noAuto  bool
+	rootPkg *ssa.Package
 	onInline  func(parent, child *pathWalker, callee *ssa.Function, args []ssa.Value)
 	onReturn  func(parent, child *pathWalker, call *ssa.Call, results []ssa.Value)
 	onExtract func(w *pathWalker, ex *ssa.Extract)
@@ -143,7 +153,7 @@ func (w *pathWalker) inlineCall(call *ssa.Call, callee *ssa.Function) string {
 		env: newEnv(), state: map[string]int64{}, absVal: w.absVal, onCall: w.onCall, onStore: w.onStore,
 		assumeErrNil: w.assumeErrNil, lengths: w.lengths, maxSteps: w.maxSteps, onSlice: w.onSlice, onPhi: w.onPhi,
 		inline: w.inline, onInline: w.onInline, onReturn: w.onReturn, onExtract: w.onExtract, depth: w.depth + 1,
-		onLoad: w.onLoad, off: w.off, cls: w.cls, root: w.rootW(),
+		onLoad: w.onLoad, off: w.off, cls: w.cls, root: w.rootW(), opaque: w.opaque, rootPkg: w.rootPkg, noAuto: w.noAuto,
 	}
 	args := call.Call.Args
 	for i, p := range callee.Params {
@@ -171,6 +181,23 @@ func (w *pathWalker) inlineCall(call *ssa.Call, callee *ssa.Function) string {
 	}
 	end := child.walk(callee.Blocks[0], nil)
 	w.oob = w.oob || child.oob
+	w.events = append(w.events, child.events...)
+	// the callee's updates of tracked state reached through a pointer argument
+	// are the caller's (a value argument is a copy)
+	for i, p := range callee.Params {
+		if i < len(args) {
+			if pp := w.path(args[i]); pp != "" {
+				if w.state == nil {
+					w.state = map[string]int64{}
+				}
+				for k, v := range child.state {
+					if strings.HasPrefix(k, p.Name()+".") || strings.HasPrefix(k, p.Name()+"[") {
+						w.state[pp+k[len(p.Name()):]] = v
+					}
+				}
+			}
+		}
+	}
 	if end != "return" {
 		w.why = "in " + callee.Name() + ": " + child.why
 		w.last = child.last
@@ -204,6 +231,9 @@ func (w *pathWalker) walk(b, pred *ssa.BasicBlock) string {
 	limit := 400
 	if w.maxSteps > 0 {
 		limit = w.maxSteps
+	}
+	if w.rootPkg == nil && w.depth == 0 && b.Parent() != nil {
+		w.rootPkg = b.Parent().Pkg
 	}
 	for steps := 0; steps < limit; steps++ {
 		if pred != nil && w.stop != nil && w.stop(b) {
@@ -361,6 +391,28 @@ func (w *pathWalker) walk(b, pred *ssa.BasicBlock) string {
 						w.env.bind(v, min(a, b))
 					}
 				}
+				if bn := calleeName(cc); (bn == "builtin:min" || bn == "builtin:max") && len(cc.Args) > 0 {
+					all := true
+					var res int64
+					for i, a := range cc.Args {
+						n, ok := w.env.eval(a)
+						if !ok {
+							all = false
+							break
+						}
+						if i == 0 || (bn == "builtin:min" && n < res) || (bn == "builtin:max" && n > res) {
+							res = n
+						}
+					}
+					if v, isV := x.(ssa.Value); isV {
+						if all {
+							w.env.bind(v, res)
+						} else {
+							delete(w.env.vals, v)
+						}
+					}
+					continue
+				}
 				if calleeName(cc) == "builtin:len" && len(cc.Args) == 1 {
 					if n, ok := w.env.eval(cc.Args[0]); ok {
 						if v, isV := x.(ssa.Value); isV {
@@ -368,6 +420,24 @@ func (w *pathWalker) walk(b, pred *ssa.BasicBlock) string {
 						}
 					}
 					continue
+				}
+				if w.inline == nil && !w.noAuto && !w.fork && w.rootPkg != nil {
+					if callee := cc.StaticCallee(); callee != nil && len(callee.Blocks) > 0 && w.depth < 4 && callee.Pkg == w.rootPkg && !w.opaque[callee.Name()] {
+						if call, isCall := x.(*ssa.Call); isCall {
+							trial := w.clone()
+							trial.root = w.root
+							end := trial.inlineCall(call, callee)
+							if end == "return" || end == "panic" {
+								root := w.root
+								*w = *trial
+								w.root = root
+								if end == "panic" {
+									return "panic"
+								}
+								continue
+							}
+						}
+					}
 				}
 				if w.inline != nil {
 					if callee := cc.StaticCallee(); callee != nil && len(callee.Blocks) > 0 && w.depth < 4 && w.inline(callee) {
